@@ -21,6 +21,7 @@ enum Tok {
     DStar,
     Sep,
     Class(Vec<char>, bool), // chars, negated
+    Alts(Vec<&'static str>), // one of several literal strings
     Opt(char),
     Plus(char),
     Many(char),
@@ -48,6 +49,10 @@ fn token_alphabet() -> Vec<(&'static str, Tok, &'static str)> {
         ("?(a)", Tok::Opt('a'), "ext_opt"),
         ("+(a)", Tok::Plus('a'), "ext_plus"),
         ("*(a)", Tok::Many('a'), "ext_many"),
+        // the delimiters of one bracket family are ordinary characters inside the other family
+        ("{a,(}", Tok::Class(vec!['a', '('], false), "alt_paren_inside"),
+        ("@(a|,)", Tok::Class(vec!['a', ','], false), "ext_comma_inside"),
+        ("{b,a|b}", Tok::Alts(vec!["b", "a|b"]), "alt_bar_inside"),
         ("\\*", Tok::Lit('*'), "esc"),
         ("\\?", Tok::Lit('?'), "esc"),
     ]
@@ -127,6 +132,12 @@ fn rmatch(t: &[Tok], p: &[char], ic: bool, neg_sep: bool) -> bool {
             };
             ok && rmatch(&t[1..], &p[1..], ic, neg_sep)
         }
+        Tok::Alts(alts) => alts.iter().any(|alt| {
+            let ac: Vec<char> = alt.chars().collect();
+            p.len() >= ac.len()
+                && ac.iter().zip(p.iter()).all(|(x, y)| fold(*x, ic) == fold(*y, ic))
+                && rmatch(&t[1..], &p[ac.len()..], ic, neg_sep)
+        }),
         Tok::Opt(c) => {
             rmatch(&t[1..], p, ic, neg_sep)
                 || (!p.is_empty() && fold(p[0], ic) == fold(*c, ic) && rmatch(&t[1..], &p[1..], ic, neg_sep))
